@@ -65,7 +65,7 @@ Definition g_weekday (idx : Z) (n : option Z) : gres wd :=
   else GExc XIndex.
 (* parser.parse(value, ignoretz=..., tzinfos=...) on the compact date forms *)
 Definition g_parse (ig : bool) (s : str) : gres dt :=
-  match parse_date ig s with DOk d => GOk d | DBad => GExc XValue | DUn => GExc XUnm end.
+  match parse_date ig s with DOk d => GOk d | DBad => GExc XValue | DOv => GExc XOverflow | DUn => GExc XUnm end.
 
 (* parm.split('TZID=')[-1]: the text after the last 'TZID=', the whole string when there is none *)
 Definition split_last_tzid (s : str) : str :=
@@ -96,29 +96,33 @@ Definition kw_set_list (key : str) (l : list Z) (kw : kwargs) : gres kwargs :=
 
 (* to the hand model's result type: every Python exception class that reaches the caller of
    _parse_rfc_rrule is a ValueError there *)
+Definition err_of_gexc (e : gexc) : err :=
+  match e with
+  | XValue => EValue | XKey => EKey | XAttr => EAttr | XIndex => EIndex | XOverflow => EOverflow
+  | XType => EType | XUnm => EUnmodelled
+  end.
+Definition gexc_of_err (e : err) : gexc :=
+  match e with
+  | EValue => XValue | EKey => XKey | EAttr => XAttr | EIndex => XIndex | EOverflow => XOverflow
+  | EType => XType | EUnmodelled => XUnm
+  end.
+(* class-preserving (one to one) *)
 Definition gres_res {A : Type} (r : gres A) : res A :=
   match r with
   | GOk a => Ok a
-  | GExc XUnm => Err EUnmodelled
-  | GExc XType => Err EType
-  | GExc _ => Err EValue
+  | GExc e => Err (err_of_gexc e)
   end.
 
 (* results of hand-modelled (AST-pinned) methods called from translated code *)
 Definition g_of_res {A : Type} (r : res A) : gres A :=
   match r with
   | Ok a => GOk a
-  | Err EUnmodelled => GExc XUnm
-  | Err EType => GExc XType
-  | Err EIndex => GExc XIndex
-  | Err EValue => GExc XValue
+  | Err e => GExc (gexc_of_err e)
   end.
 
 (* what rrulestr returns / raises *)
 Definition result_of_gres (r : gres result) : result :=
   match r with
   | GOk x => x
-  | GExc XUnm => RErr EUnmodelled
-  | GExc XType => RErr EType
-  | GExc _ => RErr EValue
+  | GExc e => RErr (err_of_gexc e)
   end.
